@@ -276,8 +276,32 @@ def c13_systematic(rng, kind):
     return calls
 
 
+def c13_shared_ids(res):
+    """well-formed games stay well-formed when entrants share an id or a snapshot plays next to the live player"""
+    for kind in KINDS:
+        M = MODEL_CLS[kind]
+        for variant in ("guest", "snapshot", "same-object-two-seats-predict"):
+            m = M()
+            a, b, c = m.rating(25.0, 8.0, "a"), m.rating(20.0, 3.0, "b"), m.rating(30.0, 2.0, "c")
+            try:
+                if variant == "guest":
+                    a.id = b.id = "guest"
+                    m.rate([[a], [b, c]], ranks=[2, 1]); m.predict_win([[a], [b, c]])
+                elif variant == "snapshot":
+                    snap = copy.deepcopy(a)
+                    a.mu = 27.0
+                    m.rate([[a], [snap], [b]], scores=[1.0, 1.0, 3.0]); m.predict_rank([[a], [snap], [b]])
+                else:
+                    m.predict_win([[a, b], [a, c]]); m.predict_draw([[a], [a]]); m.predict_rank([[a], [b], [a]])
+                res.count("shared_id_calls_accepted")
+            except Exception as e:  # noqa: BLE001
+                res.fail("property", "C13: a well-formed %s call (%s) was rejected with %s: %s" % (kind, variant, type(e).__name__, e),
+                         dict(type="c13shared", kind=kind, variant=variant))
+
+
 def c13(res):
     rng = random.Random(res.seed)
+    c13_shared_ids(res)
     calls = []
     for kind in KINDS:
         if res.shard == 0:
